@@ -10,6 +10,7 @@ mod text;
 mod netprops;
 mod c13;
 mod c14;
+mod c18;
 
 use common::Args;
 
@@ -32,6 +33,7 @@ fn main() {
         "c13" => c13::run(&a),
         "c14" => c14::run_c14(&a),
         "c15" => c14::run_c15(&a),
+        "c18" => c18::run(&a),
         "c01" => wire::run_c01(&a),
         "c03" => wire::run_c03(&a),
         "c04" => wire::run_c04(&a),
